@@ -34,7 +34,43 @@ def run(repo: Repo, chk: Check) -> None:
     wrap(repo, chk)
     all_blocks(repo, chk)
     disjoint(repo, chk)
+    xdma_by_type(repo, chk)
     order(repo, chk)
+
+
+def xdma_by_type(repo: Repo, chk: Check) -> None:
+    """whether a streaming region is data movement depends on what its accelerator IS, not on what it is called: accelerators are registered
+    under arbitrary names (AccContext.register_accelerator(name, factory)), and an xDMA registered under another name is still an xDMA"""
+    chk.rule(
+        "C14.xdma-by-type",
+        "both dispatch rules decide the data-movement case of a streaming region on the accelerator object the context returns for the op's own "
+        "accelerator name (isinstance(ctx.get_acc(op.accelerator.data), SNAXXDMAAccelerator)), never on the registered name",
+        floor=2,
+    )
+    for qual in ("dispatch_to_dm", "dispatch_to_compute"):
+        f, fl = flow_of(repo, chk, RULES, qual)
+        op, ctx = f.param(0), f.param(1)
+        by_type = by_name = None
+        for s in fl.sites:
+            if not s.reachable:
+                continue
+            for fa in s.facts:
+                if fa.kind != "atom":
+                    continue
+                m = norm.any_match(["isinstance($c.get_acc($o.accelerator.data), SNAXXDMAAccelerator)", "isinstance($c.get_acc($o.accelerator.data), snax_xdma.SNAXXDMAAccelerator)",
+                                    "isinstance($c.get_acc($o.accelerator.data), (SNAXXDMAAccelerator,))"], fa.expr, {"o": op, "c": ctx})
+                if m is not None:
+                    by_type = by_type or s
+                if isinstance(fa.expr, ast.Compare) and norm.contains(fa.expr, T("SNAXXDMAAccelerator.name")) or (
+                        isinstance(fa.expr, ast.Compare) and norm.contains(fa.expr, T("$o.accelerator.data"), {"o": op}) and any(
+                            isinstance(c_, ast.Constant) and isinstance(c_.value, str) for c_ in ast.walk(fa.expr))):
+                    by_name = by_name or s
+        if by_type is None and by_name is None:
+            raise AnalysisError(f"{f.where}: how the rule recognises an xDMA streaming region is not recognised")
+        chk.result(by_name is None and by_type is not None, "C14.xdma-by-type", f"{f.key}:xdma-test", (by_name or by_type).where(),
+                   "the xDMA case is decided on the type of the accelerator the context returns for the op's accelerator name",
+                   "the xDMA case is decided by comparing the registered NAME: an xDMA (sub)class registered under another name is not recognised, its extension-kernel "
+                   "regions are classified as compute and guarded by core 0 instead of the data-mover core")
 
 
 def conditions(repo: Repo, chk: Check) -> None:
